@@ -83,11 +83,11 @@ def nontrivial(case, o):
     if not isinstance(o, dict) or "flags" not in o or o["flags"]["rounds"] < 1:
         return None
     return [case["costs"], case["budget"], case["ballot"], case["ballots"], case["sat"], case["multi"],
-            case["tb"], case["binary"], case["resolute"], case["inc"]]
+            case["tb"], case["binary"], case["resolute"], case["inc"], case.get("init", [])]
 
 
 def stats(cases, obs):
-    keys = ["mixed", "tie", "lazy", "lazy_tie", "zero_cost", "unaffordable", "nonuniform_util", "mult2"]
+    keys = ["mixed", "tie", "lazy", "lazy_tie", "zero_cost", "unaffordable", "nonuniform_util", "mult2", "init"]
     d = {"n": 0, "by_ballot": {}, "by_sat": {}, "by_tb": {}, "binary": {}, "multi": 0, "irresolute": 0,
          "iterated": 0, "rounds_hist": {}, "share": {}}
     cnt = {k: 0 for k in keys}
@@ -115,7 +115,8 @@ def stats(cases, obs):
                   "zero_cost_supported_project": round(cnt["zero_cost"] / n, 3),
                   "unaffordable_project": round(cnt["unaffordable"] / n, 3),
                   "supporters_with_different_utilities": round(cnt["nonuniform_util"] / n, 3),
-                  "multiplicity_ge_2": round(cnt["mult2"] / n, 3)}
+                  "multiplicity_ge_2": round(cnt["mult2"] / n, 3),
+                  "nonempty_initial_allocation": round(cnt["init"] / n, 3)}
     return d
 
 
@@ -142,12 +143,14 @@ def shrink(case):
                     bl.append([ren(x) for x in b if x != j])
             c["ballots"] = bl
             c["enum"] = [ren(x) for x in case["enum"] if x != j]
+            c["init"] = [ren(x) for x in case.get("init", []) if x != j]
             if not isinstance(case["tb"], str):
                 pm = [k for i, k in enumerate(case["tb"][1]) if i != j]
                 c["tb"] = ["perm", [sorted(pm).index(k) for k in pm]]
             yield c
     # simpler configuration
-    for key, val in (("inc", None), ("resolute", True), ("multi", False), ("tb", "lexico"), ("sat_mode", "class")):
+    for key, val in (("inc", None), ("resolute", True), ("multi", False), ("tb", "lexico"), ("sat_mode", "class"),
+                     ("init", [])):
         if case.get(key) != val:
             c = dict(case)
             c[key] = val
